@@ -358,6 +358,12 @@ fn nt_c16(h: &Hist) -> bool {
 fn o_c01(h: &Hist) -> Vec<Viol> {
     oracle::c01_api(&Index::new(h))
 }
+fn o_c01_overload(h: &Hist) -> Vec<Viol> {
+    if h.cancelable {
+        return vec![];
+    }
+    oracle::omissions_only_permitted(&Index::new(h), "C01").0
+}
 fn o_c02(h: &Hist) -> Vec<Viol> {
     oracle::c02(&Index::new(h), true)
 }
@@ -448,6 +454,37 @@ pub fn spec(id: &str, variant: &str, cancelable: bool, thorough: bool) -> Option
             nontrivial: nt_c01_sched,
             rule: "programs of 2-4 vthreads (roots, children, multi-parent, local scopes, hand-off finishes, thread exit) with a generated schedule at yield-point granularity: before every ring push, before every receiver drain and between an empty pop and the abandonment check; non-trivial = >=2 vthreads active, a hand-off or a thread exit right after a finish, and >=1 step of another vthread interleaved inside a collector cycle; distinct = hash of the executed model shape and schedule",
         },
+        // C01's permitted omissions are exactly the span sets submitted while the submitting
+        // thread's queue was full: ring-fill episodes in the default configuration, everything
+        // submitted outside an overload window must still arrive exactly once
+        ("C01", "overload") => PropSpec {
+            id: "C01",
+            profile: big(Profile {
+                threads: (1, 3),
+                ops: (0, 14),
+                cycles: (1, 8),
+                sched_len: (0, 40),
+                cancelable: Some(false),
+                templates: vec![(3, Template::OverflowReplay), (2, Template::FullThenTrace)],
+                ..base.clone().set(&[
+                    (K::Fill, 10),
+                    (K::Volley, 2),
+                    (K::Finish, 18),
+                    (K::Root, 14),
+                    (K::Child, 12),
+                    (K::Exit, 2),
+                    (K::Flush, 4),
+                    (K::AddEventL, 2),
+                ])
+            }),
+            opts: ExecOpts {
+                exclude: vec!["dup_unit_attach"],
+                ..ExecOpts::new(Mode::Sched)
+            },
+            oracle: o_c01_overload,
+            nontrivial: nt_c09,
+            rule: "default configuration with ring-fill episodes (leave 0-3 slots free) at generated points: roots started, children created and handed to other vthreads and spans finished while a queue is full, cycles placed by the schedule, more spans of the same traces finished after the queue was drained; a record may be missing only if its own submit was pushed inside an overload window of the submitting vthread; non-trivial = >=1 command pushed while free==0 followed by >=1 further operation and a collector cycle; distinct = hash of the executed model shape and schedule",
+        },
         ("C03", "sched") => PropSpec {
             id: "C03",
             profile: big(Profile {
@@ -482,7 +519,7 @@ pub fn spec(id: &str, variant: &str, cancelable: bool, thorough: bool) -> Option
                 cancelable: Some(true),
                 templates: vec![(4, Template::FanIn)],
                 ..base.clone().set(&[
-                    (K::Bulk, 1), (K::Volley, 2), (K::CollectorStart, 2), (K::PushChildSpans, 3), (K::Flush, 5), (K::Exit, 2), (K::Finish, 16)])
+                    (K::Bulk, 1), (K::Volley, 2), (K::Burst, 1), (K::Many, 1), (K::CollectorStart, 2), (K::PushChildSpans, 3), (K::Flush, 5), (K::Exit, 2), (K::Finish, 16)])
             }),
             opts: api.clone(),
             oracle: o_c03,
@@ -615,6 +652,7 @@ pub fn spec(id: &str, variant: &str, cancelable: bool, thorough: bool) -> Option
                 ops: (2, 14),
                 cycles: (0, 2),
                 cancelable: Some(cancelable),
+                templates: vec![(3, Template::ScopeFull)],
                 ..base.clone().set(&[
                     (K::Burst, 9),
                     (K::Nest, 4),
@@ -644,6 +682,7 @@ pub fn spec(id: &str, variant: &str, cancelable: bool, thorough: bool) -> Option
                 unique_traces: false,
                 ..base.clone().set(&[
                     (K::EnterLocal, 18),
+                    (K::Many, 2),
                     (K::ChildOfLocal, 9),
                     (K::MultiChild, 7),
                     (K::Flush, 3),
@@ -703,6 +742,8 @@ pub fn spec(id: &str, variant: &str, cancelable: bool, thorough: bool) -> Option
                 ops: (0, 28),
                 cycles: (0, 6),
                 str_classes: 0b0011_1111,
+                templates: vec![(1, Template::PoolHandoff)],
+                pool_pct: 3,
                 ..base.clone().set(&[
                     (K::AddPropsH, 10),
                     (K::AddPropsL, 8),
@@ -731,6 +772,7 @@ pub fn spec(id: &str, variant: &str, cancelable: bool, thorough: bool) -> Option
                 ..base.clone().set(&[
                     (K::Churn, 3),
                     (K::Burst, 2),
+                    (K::Many, 2),
                     (K::SetLocalParent, 14),
                     (K::EnterLocal, 16),
                     (K::CollectorStart, 8),
@@ -815,6 +857,7 @@ pub fn spec(id: &str, variant: &str, cancelable: bool, thorough: bool) -> Option
                     (K::AddEventH, 5),
                     (K::AddPropsH, 3),
                     (K::Finish, 8),
+                    (K::Many, 1),
                 ])
             }),
             opts: ExecOpts {
@@ -832,7 +875,13 @@ pub fn spec(id: &str, variant: &str, cancelable: bool, thorough: bool) -> Option
                 threads: (1, 2),
                 ops: (0, 24),
                 max_spin_us: 300,
+                // spans bound to futures end when the future completes (or is dropped earlier)
+                adapter_kinds: vec![AdapterKind::InSpan, AdapterKind::InSpanEnterOnPoll],
                 ..base.clone().set(&[
+                    (K::Wrap, 4),
+                    (K::Drive, 9),
+                    (K::DropAdapter, 1),
+                    (K::Many, 1),
                     (K::Spin, 14),
                     (K::Elapsed, 6),
                     (K::EnterLocal, 16),
@@ -932,7 +981,7 @@ pub fn spec(id: &str, variant: &str, cancelable: bool, thorough: bool) -> Option
             let kinds = if c13 {
                 vec![AdapterKind::InSpan, AdapterKind::InSpan, AdapterKind::EnterOnPoll, AdapterKind::InSpanEnterOnPoll]
             } else {
-                vec![AdapterKind::Stream, AdapterKind::Sink]
+                vec![AdapterKind::Stream, AdapterKind::Stream, AdapterKind::Sink, AdapterKind::Sink, AdapterKind::DuplexViaStream, AdapterKind::DuplexViaSink]
             };
             PropSpec {
                 id: if c13 { "C13" } else { "C14" },
@@ -1015,6 +1064,12 @@ pub fn spec(id: &str, variant: &str, cancelable: bool, thorough: bool) -> Option
                     (K::Elapsed, 3),
                     (K::TraceFn, 5),
                     (K::Root, 4),
+                    // a manual LocalCollector scope has no parent span: spans created from "the
+                    // local parent" inside it record nothing, with or without open local spans
+                    (K::CollectorStart, 6),
+                    (K::ChildOfLocal, 10),
+                    (K::CtxOfLocal, 2),
+                    (K::PushChildSpans, 2),
                 ])
             }),
             opts: ExecOpts {
